@@ -549,7 +549,7 @@ def x_did_client_crypto_NewKeyStore : List String := ["if err != nil", "assign e
 def x_did_client_crypto_aesCTRXOR : List String := ["assign block,err := aes.NewCipher(key)", "call aes.NewCipher(key)", "if err != nil", "return nil,_", "call fmt.Errorf(_, err)", "assign buf := make([]byte, len(data))", "call make([]byte, len(data))", "call len(data)", "call _.XORKeyStream(buf, data)", "call cipher.NewCTR(block, iv)", "return buf,nil"]
 
 /-- x/did/client/crypto.decryptKey -/
-def x_did_client_crypto_decryptKey : List String := ["if key.Version != version", "return nil,_", "call fmt.Errorf(_, key.Version)", "if key.Crypto.Cipher != cipherAlgorithm", "return nil,_", "call fmt.Errorf(_, key.Crypto.Cipher)", "if key.Crypto.KDF != kdf", "return nil,_", "call fmt.Errorf(_, key.Crypto.KDF)", "if key.Crypto.KDFParams.PRF != pbkdf2PRFStr", "return nil,_", "call fmt.Errorf(_, key.Crypto.KDFParams.PRF)", "assign mac,err := hex.DecodeString(key.Crypto.MAC)", "call hex.DecodeString(key.Crypto.MAC)", "if err != nil", "return nil,_", "call fmt.Errorf(_, err)", "assign iv,err := hex.DecodeString(key.Crypto.CipherParams.IV)", "call hex.DecodeString(key.Crypto.CipherParams.IV)", "if err != nil", "return nil,_", "call fmt.Errorf(_, err)", "assign cipherText,err := hex.DecodeString(key.Crypto.CipherText)", "call hex.DecodeString(key.Crypto.CipherText)", "if err != nil", "return nil,_", "call fmt.Errorf(_, err)", "assign salt,err := hex.DecodeString(key.Crypto.KDFParams.Salt)", "call hex.DecodeString(key.Crypto.KDFParams.Salt)", "if err != nil", "return nil,_", "call fmt.Errorf(_, err)", "assign dkLen := key.Crypto.KDFParams.DKLen", "if dkLen < macKeyOffset+macKeySize", "op +", "return nil,_", "call fmt.Errorf(_, dkLen)", "if len(iv) != aes.BlockSize", "call len(iv)", "return nil,_", "call fmt.Errorf(_, len(iv))", "call len(iv)", "assign derivedKey := pbkdf2.Key([]byte(passwd), salt, key.Crypto.KDFParams.C, dkLen, pbkdf2PRF)", "call pbkdf2.Key([]byte(passwd), salt, key.Crypto.KDFParams.C, dkLen, pbkdf2PRF)", "call ?(passwd)", "assign expectedMac,err := newSHA3Keccak256(derivedKey[macKeyOffset:macKeyOffset+macKeySize], cipherText)", "call newSHA3Keccak256(derivedKey[macKeyOffset : macKeyOffset+macKeySize], cipherText)", "op +", "if err != nil", "return nil,_", "call fmt.Errorf(_, err)", "if !bytes.Equal(expectedMac, mac)", "call bytes.Equal(expectedMac, mac)", "return nil,_", "call fmt.Errorf(_)", "return _", "call aesCTRXOR(derivedKey[:cipherKeySize], iv, cipherText)"]
+def x_did_client_crypto_decryptKey : List String := ["if key.Version != version", "return nil,_", "call fmt.Errorf(_, key.Version)", "if key.Crypto.Cipher != cipherAlgorithm", "return nil,_", "call fmt.Errorf(_, key.Crypto.Cipher)", "if key.Crypto.KDF != kdf", "return nil,_", "call fmt.Errorf(_, key.Crypto.KDF)", "if key.Crypto.KDFParams.PRF != pbkdf2PRFStr", "return nil,_", "call fmt.Errorf(_, key.Crypto.KDFParams.PRF)", "assign mac,err := hex.DecodeString(key.Crypto.MAC)", "call hex.DecodeString(key.Crypto.MAC)", "if err != nil", "return nil,_", "call fmt.Errorf(_, err)", "assign iv,err := hex.DecodeString(key.Crypto.CipherParams.IV)", "call hex.DecodeString(key.Crypto.CipherParams.IV)", "if err != nil", "return nil,_", "call fmt.Errorf(_, err)", "assign cipherText,err := hex.DecodeString(key.Crypto.CipherText)", "call hex.DecodeString(key.Crypto.CipherText)", "if err != nil", "return nil,_", "call fmt.Errorf(_, err)", "assign salt,err := hex.DecodeString(key.Crypto.KDFParams.Salt)", "call hex.DecodeString(key.Crypto.KDFParams.Salt)", "if err != nil", "return nil,_", "call fmt.Errorf(_, err)", "assign dkLen := key.Crypto.KDFParams.DKLen", "if dkLen < macKeyOffset+macKeySize || dkLen > maxPBKDF2DKLen", "op +", "return nil,_", "call fmt.Errorf(_, dkLen)", "if len(iv) != aes.BlockSize", "call len(iv)", "return nil,_", "call fmt.Errorf(_, len(iv))", "call len(iv)", "assign derivedKey := pbkdf2.Key([]byte(passwd), salt, key.Crypto.KDFParams.C, dkLen, pbkdf2PRF)", "call pbkdf2.Key([]byte(passwd), salt, key.Crypto.KDFParams.C, dkLen, pbkdf2PRF)", "call ?(passwd)", "assign expectedMac,err := newSHA3Keccak256(derivedKey[macKeyOffset:macKeyOffset+macKeySize], cipherText)", "call newSHA3Keccak256(derivedKey[macKeyOffset : macKeyOffset+macKeySize], cipherText)", "op +", "if err != nil", "return nil,_", "call fmt.Errorf(_, err)", "if !bytes.Equal(expectedMac, mac)", "call bytes.Equal(expectedMac, mac)", "return nil,_", "call fmt.Errorf(_)", "return _", "call aesCTRXOR(derivedKey[:cipherKeySize], iv, cipherText)"]
 
 /-- x/did/client/crypto.encryptKey -/
 def x_did_client_crypto_encryptKey : List String := ["assign salt := make([]byte, saltBytes)", "call make([]byte, saltBytes)", "if err != nil", "assign _,err := io.ReadFull(rand.Reader, salt)", "call io.ReadFull(rand.Reader, salt)", "return _,_", "call fmt.Errorf(_, err)", "assign derivedKey := pbkdf2.Key([]byte(passwd), salt, pbkdf2C, pbkdf2DKLen, pbkdf2PRF)", "call pbkdf2.Key([]byte(passwd), salt, pbkdf2C, pbkdf2DKLen, pbkdf2PRF)", "call ?(passwd)", "assign iv := make([]byte, aes.BlockSize)", "call make([]byte, aes.BlockSize)", "if err != nil", "assign _,err := io.ReadFull(rand.Reader, iv)", "call io.ReadFull(rand.Reader, iv)", "return _,_", "call fmt.Errorf(_, err)", "assign cipherText,err := aesCTRXOR(derivedKey[:cipherKeySize], iv, key[:])", "call aesCTRXOR(derivedKey[:cipherKeySize], iv, key[:])", "if err != nil", "return _,err", "assign mac,err := newSHA3Keccak256(derivedKey[macKeyOffset:macKeyOffset+macKeySize], cipherText)", "call newSHA3Keccak256(derivedKey[macKeyOffset : macKeyOffset+macKeySize], cipherText)", "op +", "if err != nil", "return _,err", "return _,nil", "kv Version=version", "kv ID=uuid.NewRandom().String()", "call _.String()", "call uuid.NewRandom()", "kv Address=address", "kv Crypto", "kv Cipher=cipherAlgorithm", "kv CipherText=hex.EncodeToString(cipherText)", "call hex.EncodeToString(cipherText)", "kv CipherParams", "kv IV=hex.EncodeToString(iv)", "call hex.EncodeToString(iv)", "kv KDF=kdf", "kv KDFParams", "kv C=pbkdf2C", "kv DKLen=pbkdf2DKLen", "kv PRF=pbkdf2PRFStr", "kv Salt=hex.EncodeToString(salt)", "call hex.EncodeToString(salt)", "kv MAC=hex.EncodeToString(mac)", "call hex.EncodeToString(mac)"]
@@ -651,7 +651,7 @@ def x_did_types_GenesisDIDDocumentKey_Marshal : List String := ["return _"]
 def x_did_types_GenesisDIDDocumentKey_Unmarshal : List String := ["assign did := key", "if !ValidateDID(did)", "call ValidateDID(did)", "return _", "call errors.Wrapf(ErrInvalidDID, _, key)", "assign k.DID = did", "return nil"]
 
 /-- x/did/types.GenesisState.Validate -/
-def x_did_types_GenesisState_Validate : List String := ["range data.Documents", "if err != nil", "assign err := key.Unmarshal(bz)", "call key.Unmarshal(bz)", "return err", "if !doc.Valid()", "call doc.Valid()", "return _", "call errors.Wrapf(ErrInvalidDIDDocumentWithSeq, _, doc)", "if !doc.Document.Empty() && doc.Document.Id != key.DID", "call _.Empty()", "return _", "call errors.Wrapf(ErrInvalidDIDDocumentWithSeq, _, doc.Document.Id, key.DID)", "return nil"]
+def x_did_types_GenesisState_Validate : List String := ["range data.Documents", "if err != nil", "assign err := key.Unmarshal(bz)", "call key.Unmarshal(bz)", "return err", "if !doc.Valid()", "call doc.Valid()", "return _", "call errors.Wrapf(ErrInvalidDIDDocumentWithSeq, _, doc)", "if doc.Sequence == math.MaxUint64", "return _", "call errors.Wrapf(ErrInvalidDIDDocumentWithSeq, _, key.DID, doc.Sequence)", "if !doc.Document.Empty() && doc.Document.Id != key.DID", "call _.Empty()", "return _", "call errors.Wrapf(ErrInvalidDIDDocumentWithSeq, _, doc.Document.Id, key.DID)", "return nil"]
 
 /-- x/did/types.JSONStringOrStrings.Marshal -/
 def x_did_types_JSONStringOrStrings_Marshal : List String := ["return _", "call proto.Marshal(strings.protoType())", "call strings.protoType()"]
@@ -996,7 +996,7 @@ def x_pnft_keeper_msgServer_UpdateDenom : List String := ["assign ctx := sdk.Unw
 def x_pnft_types_DefaultGenesis : List String := ["return _", "kv Denoms", "kv Pnfts"]
 
 /-- x/pnft/types.Denom.ValidateBasic -/
-def x_pnft_types_Denom_ValidateBasic : List String := ["if d.Id == \"\"", "lit \"\"", "return _", "call errors.New(_)", "if d.Name == \"\"", "lit \"\"", "return _", "call errors.New(_)", "if d.Symbol == \"\"", "lit \"\"", "return _", "call errors.New(_)", "if d.Owner == \"\"", "lit \"\"", "return _", "call errors.New(_)", "return nil"]
+def x_pnft_types_Denom_ValidateBasic : List String := ["if d.Id == \"\"", "lit \"\"", "return _", "call errors.New(_)", "if strings.IndexByte(d.Id, 0) >= 0", "call strings.IndexByte(d.Id, 0)", "lit 0", "lit 0", "return _", "call errors.New(_)", "if d.Name == \"\"", "lit \"\"", "return _", "call errors.New(_)", "if d.Symbol == \"\"", "lit \"\"", "return _", "call errors.New(_)", "if d.Owner == \"\"", "lit \"\"", "return _", "call errors.New(_)", "return nil"]
 
 /-- x/pnft/types.GenesisState.ValidateBasic -/
 def x_pnft_types_GenesisState_ValidateBasic : List String := ["range data.Denoms", "if err != nil", "assign err := denom.ValidateBasic()", "call denom.ValidateBasic()", "return err", "range data.Pnfts", "if err != nil", "assign err := pnft.ValidateBasic()", "call pnft.ValidateBasic()", "return err", "return nil"]
@@ -1110,7 +1110,7 @@ def x_pnft_types_NewQueryPNFTsByOwnerRequest : List String := ["return _", "kv D
 def x_pnft_types_NewQueryPNFTsRequest : List String := ["return _", "kv DenomId=denomId"]
 
 /-- x/pnft/types.Pnft.ValidateBasic -/
-def x_pnft_types_Pnft_ValidateBasic : List String := ["if m.DenomId == \"\"", "lit \"\"", "return _", "call fmt.Errorf(_)", "if m.Id == \"\"", "lit \"\"", "return _", "call fmt.Errorf(_)", "if m.Name == \"\"", "lit \"\"", "return _", "call fmt.Errorf(_)", "if m.Creator == \"\"", "lit \"\"", "return _", "call fmt.Errorf(_)", "if m.Owner == \"\"", "lit \"\"", "return _", "call fmt.Errorf(_)", "if m.CreatedAt.IsZero()", "call _.IsZero()", "return _", "call fmt.Errorf(_)", "return nil"]
+def x_pnft_types_Pnft_ValidateBasic : List String := ["if m.DenomId == \"\"", "lit \"\"", "return _", "call fmt.Errorf(_)", "if m.Id == \"\"", "lit \"\"", "return _", "call fmt.Errorf(_)", "if m.Name == \"\"", "lit \"\"", "return _", "call fmt.Errorf(_)", "if strings.IndexByte(m.DenomId, 0) >= 0 || strings.IndexByte(m.Id, 0) >= 0", "call strings.IndexByte(m.DenomId, 0)", "lit 0", "lit 0", "call strings.IndexByte(m.Id, 0)", "lit 0", "lit 0", "return _", "call fmt.Errorf(_)", "if m.Creator == \"\"", "lit \"\"", "return _", "call fmt.Errorf(_)", "if m.Owner == \"\"", "lit \"\"", "return _", "call fmt.Errorf(_)", "if m.CreatedAt.IsZero()", "call _.IsZero()", "return _", "call fmt.Errorf(_)", "return nil"]
 
 /-- x/pnft/types.QueryDenomRequest.ValidateBasic -/
 def x_pnft_types_QueryDenomRequest_ValidateBasic : List String := ["if m.Id == \"\"", "lit \"\"", "return _", "call fmt.Errorf(_)", "return nil"]
